@@ -129,8 +129,8 @@ def h_typed(i: int, j: int, container: int, second: bool) -> bool:
     for ln in lines:
         if ln in EXACT_TEXT:
             got = comp[ln.split(":")[0].split(";")[0]]
-            got = got[0] if isinstance(got, list) else got
-            if str(got) != EXACT_TEXT[ln]:
+            got = got if isinstance(got, list) else [got]    # the same name twice: a list in input order
+            if EXACT_TEXT[ln] not in [str(g) for g in got]:
                 return False
     return True
 
@@ -162,6 +162,27 @@ def _pick(n, c0, c1, c2):
 
 
 RAW_NAMES = ["SUMMARY", "X-FOO", "URL", "ATTENDEE", "CATEGORIES", "description"]
+NON_TEXT = (2, 3)      # URL (URI), ATTENDEE (CAL-ADDRESS)
+_ESCAPABLE = (BS, ",", ";", ":")
+
+
+def kf_nontext_twice(s):
+    """Known finding C01-K1: a non-TEXT value is decoded by Contentline.parts on every parse but
+    never escaped on output; it is unstable exactly when, decoded once, it still holds a backslash
+    followed by backslash , ; or :"""
+    out = []
+    i = 0
+    while i < len(s):
+        if s[i] == BS and i + 1 < len(s) and s[i + 1] in _ESCAPABLE:
+            out.append(s[i + 1])
+            i += 2
+        else:
+            out.append(s[i])
+            i += 1
+    for k in range(len(out) - 1):
+        if out[k] == BS and out[k + 1] in _ESCAPABLE:
+            return True
+    return False
 
 
 def h_raw(name: int, where: int, n: int, c0: int, c1: int, c2: int) -> bool:
@@ -181,6 +202,8 @@ def h_raw(name: int, where: int, n: int, c0: int, c1: int, c2: int) -> bool:
     if where != 0 and BS in s:
         return True      # known finding C08-K1: backslashes in parameter values
     if where == 0:
+        if pin("name", name) in NON_TEXT and kf_nontext_twice(s):
+            return True  # known finding C01-K1
         line = nm + ":" + s
     elif where == 1:
         line = nm + ";X-P=" + s + ":v"
